@@ -281,8 +281,26 @@ func c08nodeRun(t *testing.T, r *verifsim.Run) {
 		nd.exec.executeDkgIfEligible(seed, c08nodeStartBlock, delayBlocks)
 	}
 
+	// several seats of one operator publish through the node's single channel
+	// from concurrent goroutines: at every quiescent point (the pump asks
+	// "done?" right before it drains) each node's outbox is put into a
+	// canonical order (by claimed member index, each member's own program
+	// order preserved), so that no tape decision depends on a goroutine race
+	canon := func() {
+		verifadapt.C08nodeSortOutboxes(sn, func(e *verifadapt.Envelope) uint64 {
+			if fs, ok := verifadapt.PBParse(e.Payload); ok {
+				for _, f := range fs {
+					if f.Num == 1 {
+						return f.Val
+					}
+				}
+			}
+			return 0
+		})
+	}
 	seenExecuting := false
 	keygenDone := func() bool {
+		canon()
 		busy := false
 		for _, nd := range nodes {
 			if nd.latch.IsExecuting() {
@@ -448,6 +466,7 @@ func c08nodeRun(t *testing.T, r *verifsim.Run) {
 	r.Logf("signing: final group %d, signers (key-generation parties) %v, excluded stored indexes %v", k, signerParties, sigExcluded)
 	spump := &c07Pump{r: r, tp: tp, sn: sn, nodes: snodes, pending: map[int][]*verifadapt.Envelope{}, channel: c08nodeSignChannel, chaos: chaos}
 	sigAll := func() bool {
+		canon()
 		for _, st := range signers {
 			if !st.sigDone {
 				return false
